@@ -427,7 +427,8 @@ PROPS = {
                    "performs the RPC under the configured get_block timeout (so a peer that never answers is timed out and the request returns to the queue). "
                    "Unit handlers: the state a connection starts from claims no block on the peer's behalf (PushServer::new), and the push_block_store_state "
                    "handler leaves exactly the announced state in the connection's channel after every accepted announcement (also one that only raises `first`); "
-                   "the get_block handler answers a request for n with block n or nothing.",
+                   "the get_block handler answers a request for n with block n or nothing; EngineManager::wait_until_queued (unit blockstore) - the signal on which "
+                   "run_block_fetcher stops asking for a block - returns only once that block has been queued for storage.",
         level_note="Not decided (A4): interleavings between requester, acceptors and per-call tasks (the spawned wait task is verified as a "
                    "function and composed in line, R-spawn), oneshot drop semantics (a dropped sender wakes the requester with Disconnected), "
                    "the fetcher task run_block_fetcher (one request per missing number, cancelled once queued). watch::send_if_modified runs "
